@@ -9,23 +9,29 @@ from vlib import log
 
 PROP = "C03"
 MODULE = "MCRunner"
-STATE_VARS = ["duty", "runH", "dval", "finished", "ctrlH", "inst", "sigLog"]
+STATE_VARS = ["duty", "runH", "runIn", "dval", "finished", "ctrlH", "stored", "sigLog"]
 DRIVER = "runner"
 NOPRE_ROLES = "attester,sync_committee"
 PRE_ROLES = "proposer,proposer_blinded,aggregator,contribution"
 
 
 def _tier(tier):
+    # covers: (cfg, roles, MaxSig of the cfg, leaves replayed (None = all), of which eviction histories first, extra edges)
     if tier == "quick":
-        return dict(mc=["Runner_nopre.cfg", "Runner_pre_cover.cfg"],
-                    covers=[("Runner_nopre_cover.cfg", NOPRE_ROLES, 3, 260, 120), ("Runner_pre_cover.cfg", PRE_ROLES, 2, 420, 160)],
+        return dict(mc=["Runner_nopre.cfg", "Runner_pre.cfg"],
+                    covers=[("Runner_nopre_cover.cfg", NOPRE_ROLES, 3, 200, 0, 80),
+                            ("Runner_evict_cover.cfg", NOPRE_ROLES, 3, 260, 160, 80),
+                            ("Runner_evict_pre_cover.cfg", PRE_ROLES, 2, 360, 220, 100)],
                     random_runs=150)
     return dict(mc=["Runner_nopre.cfg", "Runner_pre.cfg"],
-                covers=[("Runner_nopre_cover.cfg", NOPRE_ROLES, 3, None, 12000), ("Runner_pre_cover.cfg", PRE_ROLES, 2, 5000, 5000)],
+                covers=[("Runner_nopre_cover.cfg", NOPRE_ROLES, 3, None, 0, 8000),
+                        ("Runner_pre_cover.cfg", PRE_ROLES, 2, 4000, 0, 3000),
+                        ("Runner_evict_cover.cfg", NOPRE_ROLES, 3, None, 0, 6000),
+                        ("Runner_evict_pre_cover.cfg", PRE_ROLES, 2, 5000, 3000, 3000)],
                 random_runs=4000)
 
 
-# (cfg, roles, removed guard)
+# (cfg, roles, removed / changed guard)
 ATTACKS = [
     ("Runner_attack_noheight.cfg", NOPRE_ROLES, "didDecideCorrectly without the height comparison"),
     ("Runner_attack_noheight_pre.cfg", PRE_ROLES, "didDecideCorrectly without the height comparison (roles with a pre-consensus phase)"),
@@ -35,12 +41,44 @@ ATTACKS = [
     ("Runner_attack_everydecided_pre.cfg", PRE_ROLES, "every decided message of the running height is reported (roles with a pre-consensus phase)"),
     ("Runner_attack_noroute.cfg", NOPRE_ROLES, "Validator.validateMessage does not compare the validator key of the message id"),
     ("Runner_attack_noroute_pre.cfg", PRE_ROLES, "validateMessage without the validator key comparison (roles with a pre-consensus phase)"),
+    ("Runner_attack_prevfromcontainer.cfg", NOPRE_ROLES, "prevDecided read from the controller's 2-slot container instead of State.RunningInstance: "
+     "decided, two future decided messages evict the instance, replay of the decided message"),
+    ("Runner_attack_prevfromcontainer_pre.cfg", PRE_ROLES, "prevDecided read from the controller's container (roles with a pre-consensus phase)"),
 ]
 # removing the runner-side prevDecided alone yields no counterexample (the controller reports a decision once): checked in thorough only
 ATTACKS_THOROUGH = [
     ("Runner_attack_noprev.cfg", NOPRE_ROLES, "runner-side prevDecided only (the controller's own check still holds: no counterexample expected)"),
     ("Runner_attack_noprev_pre.cfg", PRE_ROLES, "runner-side prevDecided only, roles with a pre-consensus phase (no counterexample expected)"),
 ]
+# named deviation of the pinned commit (C03 finding signed-twice-evicted-undecided): its counterexample also tells which variant the tree implements
+DETACHED = [("Runner_attack_code_detached.cfg", NOPRE_ROLES), ("Runner_attack_code_detached_pre.cfg", PRE_ROLES)]
+DETACHED_DESC = ("prevDecided of the pinned commit: the running instance is pushed out of the controller's 2-slot container before it "
+                 "decided, every delivery of its height's decided message signs again")
+
+
+def _with_prevdec(cfg, variant):
+    """cfg text with PrevDec set to the variant the tree implements; the repaired variant also keeps OnceDetached"""
+    txt = open(os.path.join(vlib.SPEC, cfg)).read()
+    if variant == "fixed":
+        txt = txt.replace('PrevDec = "code"', 'PrevDec = "fixed"')
+        if "INVARIANT SigWindow" in txt and "OnceDetached" not in txt:
+            txt = txt.replace("INVARIANT SigWindow\n", "INVARIANT SigWindow\nINVARIANT OnceDetached\n")
+    return {cfg: txt}
+
+
+def _is_eviction_history(beh):
+    """>= 2 decided messages for heights above the running duty, later a decided message for the duty's own height"""
+    duty, above, hit = 0, set(), False
+    for st in beh["steps"]:
+        a = st["act"]
+        if a.get("name") == "StartDuty" and a.get("ok"):
+            duty, above = a["s"], set()
+        elif a.get("name") == "RecvDecided" and duty:
+            if a["h"] > duty:
+                above.add(a["h"])
+            elif a["h"] == duty and len(above) >= 2:
+                hit = True
+    return hit
 
 
 def _tlc(module, cfg, **kw):
@@ -118,9 +156,25 @@ def run(tier, seed):
         done_cfgs.add(cfg)
         log("[C03] TLC %s: %d distinct / %d generated, finished=%s, %.1fs" % (cfg, r.distinct, r.generated, r.finished, r.wall))
 
+    # 0. the named deviation of the pinned commit (finding signed-twice-evicted-undecided): replay its counterexample; the
+    #    outcome tells which variant of PrevDec the tree implements, the covers below are generated from that variant
+    variant = "fixed"
+    for cfg, roles in DETACHED:
+        ra = _tlc(MODULE, cfg, workers=4, timeout=900)
+        if ra.error or not ra.violation:
+            raise vlib.MachineryError("deviation config %s produced no counterexample: %s" % (cfg, ra.error))
+        b = vlib.trace_behaviour(ra.trace, "attack-" + cfg.replace(".cfg", ""), "attack:" + DETACHED_DESC, state_vars=STATE_VARS)
+        cov["attack_traces"] += 1
+        res = _drive(binp, wd, "attack_" + cfg.replace(".cfg", ""), [b], roles, 4, seed, verdict, allroles=True)
+        account(res)
+        if any(v["signature"] == "signed-twice-evicted-undecided" for v in res["violations"]):
+            variant = "code"
+    cov["prevdec_variant_of_tree"] = variant
+    log("[C03] the runners of this tree follow PrevDec=%s of the spec" % variant)
+
     # 1. state-graph covers (each dump is an exhaustive run of its config with the invariants) replayed on the real runners
-    for cfg, roles, maxsig, nleaves, extra in T["covers"]:
-        rg, nodes, edges, inits = _dump(MODULE, cfg, timeout=2400, workers=8)
+    for cfg, roles, maxsig, nleaves, nevict, extra in T["covers"]:
+        rg, nodes, edges, inits = _dump(MODULE, cfg, timeout=2400, workers=8, files=_with_prevdec(cfg, variant))
         if not vlib.expect_tlc_ok(rg, cfg):
             raise vlib.MachineryError("faithful Runner spec violates %s in %s (model error, not a verdict):\n%s" %
                                       (rg.violation, cfg, json.dumps(vlib.tlaval.plain([s.get("act") for s in rg.trace]))))
@@ -128,10 +182,17 @@ def run(tier, seed):
         behs, gstat = vlib.graph_behaviours(nodes, edges, inits, seed, max_extra=extra, state_vars=STATE_VARS)
         leaves = [b for b in behs if "-leaf-" in b["id"]]
         others = [b for b in behs if "-leaf-" not in b["id"]]
+        ev = [b for b in leaves if _is_eviction_history(b)]
+        gstat["eviction_histories"] = len(ev)
         if nleaves is not None and len(leaves) > nleaves:
-            rng.shuffle(leaves)
-            leaves = leaves[:nleaves]
-            gstat["leaves_replayed"] = nleaves
+            rng.shuffle(ev)
+            ev = ev[:nevict]
+            evids = set(b["id"] for b in ev)
+            rest = [b for b in leaves if b["id"] not in evids]
+            rng.shuffle(rest)
+            leaves = ev + rest[:max(0, nleaves - len(ev))]
+            gstat["leaves_replayed"] = len(leaves)
+            gstat["eviction_histories_replayed"] = len(ev)
         cov["cover_" + cfg.replace(".cfg", "")] = gstat
         res = _drive(binp, wd, "cover_" + cfg.replace(".cfg", ""), leaves + others, roles, maxsig, seed, verdict)
         account(res)
@@ -142,7 +203,7 @@ def run(tier, seed):
     for cfg in T["mc"]:
         if cfg in done_cfgs:
             continue
-        r = _tlc(MODULE, cfg, workers=8, timeout=2400, stop_after=1800 if tier == "thorough" else 300)
+        r = _tlc(MODULE, cfg, workers=8, timeout=2400, stop_after=1800 if tier == "thorough" else 300, files=_with_prevdec(cfg, variant))
         if not vlib.expect_tlc_ok(r, cfg):
             raise vlib.MachineryError("faithful Runner spec violates %s in %s (model error, not a verdict):\n%s" %
                                       (r.violation, cfg, json.dumps(vlib.tlaval.plain([s.get("act") for s in r.trace]))))
@@ -150,7 +211,7 @@ def run(tier, seed):
 
     # 3. attack traces from the weakened spec, on every role of their family
     for cfg, roles, desc in ATTACKS + (ATTACKS_THOROUGH if tier == "thorough" else []):
-        ra = _tlc(MODULE, cfg, workers=4, timeout=900)
+        ra = _tlc(MODULE, cfg, workers=4, timeout=900, files=_with_prevdec(cfg, variant))
         if ra.error:
             raise vlib.MachineryError("attack config %s: %s" % (cfg, ra.error))
         if not ra.violation:
